@@ -127,7 +127,8 @@ def _tail(body, mk, at):
             out.append(ast.copy_location(ast.If(test=s.test, body=nb or [ast.copy_location(ast.Pass(), s)], orelse=ne), s))
             return out
         out.append(s)
-    out.extend(mk(None, at))          # fell off the end: the helper returned None
+    if not (out and isinstance(out[-1], ast.Raise)):
+        out.extend(mk(None, at))          # fell off the end: the helper returned None
     return out
 
 
@@ -186,7 +187,7 @@ class Inliner(object):
             return None
         return h, call, bound
 
-    def _bind(self, h, call, bound, caller_names):
+    def _bind(self, h, call, bound, caller_names, overwritten=()):
         params = list(h.params)
         if bound and not h.static:
             params = params[1:]           # self stays self
@@ -215,6 +216,8 @@ class Inliner(object):
         for p in params:
             a = binding[p]
             simple = isinstance(a, (ast.Name, ast.Constant)) or (isinstance(a, ast.Attribute) and _modconst(a))
+            if isinstance(a, ast.Name) and a.id == p and p in overwritten:
+                continue        # x = h(x): the caller's x is overwritten by the call anyway, the helper may work on it directly
             if simple and p not in assigned:
                 if isinstance(a, ast.Name) and a.id == p:
                     continue
@@ -229,7 +232,7 @@ class Inliner(object):
                     mapping[p] = nm
         # helper locals that clash with caller names
         for l in sorted(assigned - set(params)):
-            if l in caller_names:
+            if l in caller_names and l not in overwritten:
                 self.tmp += 1
                 mapping[l] = '%s__%s%d' % (l, h.node.name.strip('_'), self.tmp)
         body = [copy.deepcopy(s) for s in h.node.body]
@@ -285,7 +288,13 @@ class Inliner(object):
             hit = self._callee(val, cls_stack) if val is not None else None
             if hit and hit[0].node is not fn and (not isinstance(val, ast.Await) or hit[0].is_async) and (isinstance(val, ast.Await) or not hit[0].is_async):
                 h, call, bound = hit
-                b = self._bind(h, call, bound, names)
+                over = set()
+                if isinstance(s, ast.Assign):
+                    for t_ in s.targets:
+                        for x_ in ast.walk(t_):
+                            if isinstance(x_, ast.Name):
+                                over.add(x_.id)
+                b = self._bind(h, call, bound, names, over)
                 if b is not None:
                     pre, hb = b
                     if isinstance(s, ast.Return):
@@ -332,4 +341,27 @@ def inline_all(trees, skip=()):
     for n, t in trees.items():
         if n not in skip:
             inl.module(t)
+    if inl.count:
+        # a helper every call of which was written back into its caller is no longer part of the program the rules look at
+        for name, h in inl.helpers.items():
+            if not h.ok:
+                continue
+            mangled = ('_%s%s' % (h.cls.name.lstrip('_'), name)) if (h.cls is not None and name.startswith('__')) else name
+            refs = 0
+            for n, t in trees.items():
+                if n in skip:
+                    continue
+                for x in ast.walk(t):
+                    if isinstance(x, ast.Attribute) and x.attr in (name, mangled):
+                        refs += 1
+                    elif isinstance(x, ast.Name) and x.id in (name, mangled) and isinstance(x.ctx, ast.Load):
+                        refs += 1
+                    elif isinstance(x, ast.Constant) and x.value in (name, mangled):
+                        refs += 1          # getattr(self, '_helper') and the like
+            if refs == 0:
+                owner = h.cls.body if h.cls is not None else trees[h.module].body
+                if h.node in owner:
+                    owner.remove(h.node)
+                    if not owner:
+                        owner.append(ast.Pass())
     return inl.count
